@@ -582,3 +582,28 @@ extern "C" void harness_checksplitowner() {
   else VA(o->owner == owner0);
   verif_reach();
 }
+
+// C04: the owner CheckSplitOwner installs is the INNERMOST containing ring. Split graph: r0 lists r1, r1 lists r2 (each a piece split
+// off the previous one and lying inside it), all three alive; containment verdicts are arbitrary but consistent with that nesting
+// (inside r2 => inside r1 => inside r0). Expected owner: the deepest record containing the searching ring, none if none does.
+static OutPt* g_in_rings[3]; static bool g_inside[3];
+extern "C" __attribute__((noinline)) bool stub_checkbounds_live(ClipperBase* s, OutRec* r) { return r->pts != nullptr; }
+extern "C" __attribute__((noinline)) bool stub_p1inp2_tab(OutPt* a, OutPt* b) { for (int i = 0; i < 3; ++i) if (b == g_in_rings[i]) return g_inside[i]; VA(false); return false; }
+extern "C" void harness_checksplitowner_innermost() {
+  Clipper64& c = *new Clipper64();
+  OutRec* o = new OutRec(); o->pts = new OutPt(Point64((int64_t)0, (int64_t)0), o);
+  OutRec* r[3]; OutRecList* lists[3];
+  for (int i = 0; i < 3; ++i) { r[i] = new OutRec(); r[i]->pts = new OutPt(Point64((int64_t)i, (int64_t)1), r[i]); g_in_rings[i] = r[i]->pts; }
+  for (int i = 0; i < 3; ++i) { lists[i] = new OutRecList((size_t)1, (OutRec*)nullptr); (*lists[i])[0] = r[(i + 1) % 3]; }
+  r[0]->splits = lists[0]; r[1]->splits = lists[1]; r[2]->splits = nullptr;
+  r[1]->owner = r[0]; r[2]->owner = r[1];
+  for (int i = 0; i < 3; ++i) g_inside[i] = nondet_bool();
+  ASSUME((!g_inside[2] || g_inside[1]) && (!g_inside[1] || g_inside[0]));
+  OutRecList& top = *new OutRecList((size_t)1, (OutRec*)nullptr); top[0] = r[0];
+  o->owner = nullptr;
+  bool res = c.CheckSplitOwner(o, &top);
+  OutRec* expect = g_inside[2] ? r[2] : g_inside[1] ? r[1] : g_inside[0] ? r[0] : nullptr;
+  VA(res == (expect != nullptr));
+  VA(o->owner == expect);
+  verif_reach();
+}
